@@ -35,4 +35,11 @@ def searchInDump (π : Row → Row) (R : Regex) (sh : GoVal → Bytes) (d : Dump
   | none => none
   | some re => some (loopM (dbBody π re sh o) d []).1
 
+/-- the hits of the ORIGINAL SearchInDump when the runtime walks each row's map in the order `π row` -/
+def origHits (π : Row → Row) (R : Regex) (sh : GoVal → Bytes) (d : Dump) (o : Opts) : Option (List Hit) :=
+  (searchInDump π R sh d o).map (·.map toHit)
+
+/-- a regex engine for the witness: every pattern compiles and matches everything -/
+def anyRegex : Regex := { compile := fun _ => some fun _ => true }
+
 end PgVerif.Model.SearchOrig
